@@ -319,7 +319,8 @@ class SiteDone(Exception):
     pass
 
 
-MATH_PURE = {"sqrt", "exp", "log", "sin", "cos", "sinh", "cosh", "fabs", "pow", "floor", "ceil",
+MATH_PURE = {"sqrt", "exp", "log", "sin", "cos", "sinh", "cosh", "fabs", "pow", "floor", "ceil", "expm1", "log1p",
+             "tanh", "atan2", "round",
              "printf", "fprintf", "omp_get_max_threads", "omp_get_thread_num", "omp_get_num_threads"}
 
 MAX_STEPS = 20_000_000
